@@ -66,10 +66,10 @@ struct bitset {
 
         for (decltype(pos) i = 0; i < len; ++i) {
             if (Traits::eq(str[i + pos], one)) {
-                set(i, true);
+                set(len - 1 - i, true);
             }
             if (Traits::eq(str[i + pos], zero)) {
-                set(i, false);
+                set(len - 1 - i, false);
             }
         }
     }
